@@ -183,4 +183,24 @@ theorem coveringDifference_subset_difference (a : Tree w L) (b : Tree w R) (hwa 
     · rw [← hxc]
   · simp [he] at hxc
 
+/-- special case: nothing is left of a view after removing the view itself — more generally after
+removing any view that stores all of its keys -/
+theorem difference_eq_nil_of_subset (a : Tree w L) (b : Tree w R) (hwa : HasWF a) (hwb : HasWF b)
+    (hsub : ∀ x ∈ a.slotEntries, ∃ y ∈ b.slotEntries, y.2.1.net = x.2.1.net) : difference a b = [] := by
+  rw [difference_spec a b hwa hwb]
+  unfold diffS
+  rw [List.filterMap_eq_nil_iff]
+  intro x hx
+  obtain ⟨y, hy, hk⟩ := hsub x hx
+  cases hl : lookupK b.slotEntries (keyOf x) with
+  | some _ => rfl
+  | none =>
+    unfold lookupK at hl
+    rw [List.find?_eq_none] at hl
+    have := hl y hy
+    simp [keyOf, hk] at this
+
+theorem difference_self (a : Tree w L) (hwa : HasWF a) : difference a a = [] :=
+  difference_eq_nil_of_subset a a hwa hwa (fun x hx => ⟨x, hx, rfl⟩)
+
 end PT.C07
